@@ -302,6 +302,12 @@ func expect(d *eqv.D, t reflect.Type) expectation {
 				f, _ := new(big.Float).SetInt(d.I).Float64()
 				return mk(f)
 			}
+			// larger integers that the destination represents exactly (2^63, 2^64, ...) are lossless too
+			if f, acc := new(big.Float).SetInt(d.I).Float64(); acc == big.Exact && !math.IsInf(f, 0) {
+				if !is32 || float64(float32(f)) == f {
+					return mk(f)
+				}
+			}
 			return unspec
 		case eqv.KFloat:
 			if math.IsNaN(d.F) || math.IsInf(d.F, 0) {
@@ -453,6 +459,24 @@ func expect(d *eqv.D, t reflect.Type) expectation {
 				out.SetMapIndex(ke.val, ve.val)
 			}
 			return expectation{kind: wantValue, val: out}
+		case eqv.KList:
+			// a list read into a map with integer keys: element i under key i
+			switch t.Key().Kind() {
+			case reflect.Int, reflect.Int16, reflect.Int32, reflect.Int64, reflect.Uint, reflect.Uint16, reflect.Uint32, reflect.Uint64:
+				out := reflect.MakeMap(t)
+				for i, x := range d.List {
+					ve := expect(x, t.Elem())
+					if ve.kind == wantError {
+						return errExp("element " + strconv.Itoa(i) + ": " + ve.why)
+					}
+					if ve.kind != wantValue {
+						return unspec
+					}
+					out.SetMapIndex(reflect.ValueOf(i).Convert(t.Key()), ve.val)
+				}
+				return expectation{kind: wantValue, val: out}
+			}
+			return unspec
 		case eqv.KInt, eqv.KFloat, eqv.KBool, eqv.KTime, eqv.KUUID, eqv.KStr, eqv.KBytes:
 			if d.K == eqv.KStr && d.S == "" {
 				return unspec
